@@ -429,7 +429,7 @@ pub fn all_ops() -> Vec<&'static str> {
     v
 }
 
-fn fam<B: Bk>(run: &mut Run)
+pub fn fam<B: Bk>(run: &mut Run)
 where
     Module<B>: HalAll<B>,
 {
@@ -459,7 +459,7 @@ where
 // large N classes: dense x sparse and extreme x extreme, exact product in O(N * terms)
 // ---------------------------------------------------------------------------------------------
 
-fn fam_large<B: Bk>(run: &mut Run)
+pub fn fam_large<B: Bk>(run: &mut Run)
 where
     Module<B>: HalAll<B>,
 {
